@@ -133,7 +133,7 @@ def write_tiling(fb, fn):
                 return r if r is not None else {e["decl"]: 1}
             if k == "ref" and e.get("dk") in ("local", "param"):
                 return {"%s#%d" % (e["decl"], ver.get(e["decl"], 0)) if e["decl"] in ver else e["decl"]: 1}
-            if k == "call" and (e.get("callee") or {}).get("nm") == "data" and strip_all_casts(e.get("obj", {})).get("name") == "payloadData":
+            if k == "call" and (e.get("callee") or {}).get("nm") == "data" and fb.is_payload_buffer(e.get("obj", {})):
                 return {"D": 1}
             if any(x.get("k") in ("assign", "cassign") or (x.get("k") == "un" and x.get("op") in ("pre++", "post++", "pre--", "post--")) for x in walk(e)):
                 return None
@@ -224,7 +224,7 @@ def write_tiling(fb, fn):
                 prev_end = add(start, ln)
                 first = False
                 last_write = n
-            elif k == "call" and (n.get("callee") or {}).get("nm") == "resize" and strip_all_casts(n.get("obj", {})).get("name") == "payloadData" and not first:
+            elif k == "call" and (n.get("callee") or {}).get("nm") == "resize" and fb.is_payload_buffer(n.get("obj", {})) and not first:
                 amount = lin(n["args"][0])
                 want = add(prev_end, {"D": 1}, -1) if prev_end is not None else None
                 key = "final-size@%s" % (n.get("loc") or "").split(":", 1)[-1]
@@ -237,7 +237,7 @@ def write_tiling(fb, fn):
                             "returns position %s but its last write ended at %s" % (fmt(rv), fmt(prev_end))))
         # the sizing resize that precedes the writes must equal the end of the last write when nothing resizes afterwards
         if not first and not ptr_params:
-            sizes = [c for c in p.calls("std::vector::resize") if strip_all_casts(c.get("obj", {})).get("name") == "payloadData"]
+            sizes = [c for c in p.calls("std::vector::resize") if fb.is_payload_buffer(c.get("obj", {}))]
             if len(sizes) == 1:
                 pos_backup = dict(pos)
                 amount = lin(sizes[0]["args"][0])
@@ -508,7 +508,7 @@ def run(ctx):
     # ---- R5 resize dominates first write, size covers operands
     for name in (NS + "CaptureModulePayload::setData", NS + "InterfacePayload::setData"):
         f = fb.fn(name)
-        rs = [c for c in f.calls("std::vector::resize") if strip_all_casts(c.get("obj", {})).get("name") == "payloadData"]
+        rs = [c for c in f.calls("std::vector::resize") if fb.is_payload_buffer(c.get("obj", {}))]
         cfg = f.cfg
         writes = [n for kind, cur, ln, n, b in cursor_events(f) if kind == "write"]
         helper_calls = [c for c in f.calls() if (callee_name(c) or "").endswith("fillWithString")]
